@@ -88,6 +88,10 @@ CHECKS = {
          "and the Lean predicates are evaluated on the implementation's values.",
          "cron branch is a model parameter (croniter absent).",
          "Lean 4 proof (omega/induction-free arithmetic) + differential correspondence", "§5 C19"),
+ "C20": ("Lean: get_endpoint_reports_status (EVERY text whose head starts with `GET <endpoint> <anything>` — any version text, header lines, body — is answered with the status), other_request_404, handle_total (any text: dropped or one of exactly three contents), no_blank_line_dropped; server bookkeeping over ANY event sequence (any amount of traffic and garbage, starts, stops, failures): traffic_preserves_state, status_iff_failed, serving_iff_running, truthful (200/503/refused as a function of the history). "
+         "Tie: (a) protocol level — the real data_received on a recording transport vs Health.handle for thousands of byte strings (15 kinds incl. truncations, invalid UTF-8, near-miss paths) × 4 endpoints × both statuses, full response text except Date; (b) socket level, real time — a real Worker with the server on a loopback port, jobs on two queues, event scripts (whole / fragmented requests, garbage, 600 kB request, bursts of 20 connections, held connections, injected consumer failure) vs Health.run; port refused before and after the run; every healthy-queue job executed exactly once; stop by SIGINT, by cancellation, with an idle connection held.",
+         "loopback TCP, real time (schedules sampled, not enumerated); endpoints without spaces; CPython 3.12 wait_closed semantics. Known findings F17 (fragmented request dropped), F19 (port open after cancelled run), F20 (idle connection makes run() raise TimeoutError); defect F18 repaired by fix: fdfa58a.",
+         "Lean 4 proof (induction over event sequences, text-splitting lemmas) + differential correspondence at protocol and socket level", "§5 C20"),
 }
 PENDING_REASON = "check not built yet in this round (work in progress; see DESIGN.md §9 order of work)"
 ALL = [f"C{i:02d}" for i in range(1, 21)]
